@@ -185,16 +185,16 @@ Proof.
   unfold match_first, PartialQuotedString.
   destruct (match_quoted_with c_dq (c :: s)) as [[t r]|] eqn:E1; [eauto|].
   destruct (match_quoted_with c_sq (c :: s)) as [[t r]|] eqn:E2; [eauto|].
-  unfold Word, CharsNotIn. simpl.
+  unfold Word, CharsNotIn. cbn [span].
   destruct (in_chars c WS) eqn:Ew.
   - destruct (span (fun c0 => in_chars c0 WS) s). eauto.
-  - destruct (in_chars c SPECIAL) eqn:Es.
+  - destruct (in_chars c SPECIAL) eqn:Es; cbn [negb].
     + exfalso. apply in_chars_In in Es. unfold SPECIAL in Es. simpl in Es.
       apply in_chars_false in Ew. unfold WS in Ew. simpl in Ew.
       destruct Es as [H | [H | Es]]; [subst c | subst c | apply Ew; tauto].
-      * simpl in E2. destruct (span (fun x => negb (x =? c_sq)) s) as [? [|? ?]]; discriminate.
-      * simpl in E1. destruct (span (fun x => negb (x =? c_dq)) s) as [? [|? ?]]; discriminate.
-    + simpl. destruct (span (fun c0 => negb (in_chars c0 SPECIAL)) s). eauto.
+      * cbn in E2. destruct (span _ s) as [? [|? ?]]; discriminate.
+      * cbn in E1. destruct (span _ s) as [? [|? ?]]; discriminate.
+    + destruct (span (fun c0 => negb (in_chars c0 SPECIAL)) s). eauto.
 Qed.
 
 (* ---------- fuel ---------- *)
